@@ -1,12 +1,14 @@
 #!/bin/bash
 # regress_seeds.sh [pattern] -- applies every kept seeded change to /repo in turn and runs the quick check of
 # the first property listed in its meta.json "caught_by"; prints one line per seed. /repo must be clean.
+# ONLY="C04 C06 R17": only seeds whose check id or name prefix is in the list.
 cd /verif
 unset CARGO_TARGET_DIR
 SAVE=$(mktemp -d); cp -a /verif/evidence "$SAVE/evidence"; cp -a /verif/replays "$SAVE/replays" 2>/dev/null
 for d in seeded/*${1:-}*/; do
   n=$(basename "$d")
   c=$(python3 -c "import json;print(json.load(open('$d/meta.json'))['caught_by'][0])")
+  if [ -n "$ONLY" ]; then keep=0; for o in $ONLY; do case "$n" in $o*) keep=1;; esac; [ "$c" = "$o" ] && keep=1; done; [ $keep = 1 ] || continue; fi
   git -C /repo status --short | grep -q . && { echo "/repo dirty"; exit 2; }
   git -C /repo apply "/verif/$d/patch.diff" 2>/dev/null || { echo "$n: PATCH DOES NOT APPLY"; continue; }
   t0=$(date +%s)
